@@ -139,6 +139,14 @@ def frame_oracle(kind, ops, obs):
                 return 'step %d %s: %s' % (i, k, why)
             if why and known is None:
                 known = 'live-id-skipped: step %d import onto graph %s that holds nodes: %s' % (i, op[1], why)
+        if k == 'clone':
+            # a clone call - whether it succeeds or raises, onto a fresh id, an existing id or the graph's OWN id - leaves
+            # the SOURCE graph's content unchanged (internal ids may be renewed when a graph is cloned onto itself)
+            src = sc.SYM[op[1]]
+            if src in prev and all(sc.pget(n[1], sc.NID) not in ('ABSENT', None) for n in prev[src][0]):
+                if src not in cur or sc.api_view(cur[src]) != sc.api_view(prev[src]):
+                    return 'step %d clone %s -> %s (%s) changed the content of its SOURCE graph %s' % (
+                        i, op[1], op[2], 'ok' if ok else 'raised ' + o['r'][2], op[1])
         if k == 'clone' and op[1] != op[2]:
             src, dst = sc.SYM[op[1]], sc.SYM[op[2]]
             effective = kind == 'shared' or dst not in stored
